@@ -5,6 +5,7 @@ import JSight.DocCursorThm
 import JSight.DocCursorFuel
 import JSight.DocCursorLink
 import JSight.DocCursorSafe
+import JSight.SchemaObjProofs
 /-!
 # C11 — Results are deterministic, history-independent and stable: what a theorem can carry
 
@@ -223,3 +224,105 @@ end Props.C11
 #print axioms Props.C11.C11_doc_equal_inputs
 #print axioms Props.C11.C11_doc_rewind_keeps_option
 #print axioms Props.C11.C11_doc_accepted_is_whole_text_model
+/-! ## C11 at orchestration level: the public `jschema.Schema` object (model `JSight/SchemaObj.lean`)
+
+The glue of notations/jschema/jschema.go over abstract stage functions (`SchemaObj.World`): which public method runs which
+stage on which object, what the once cells cache (internal/sync/erronce.go), what `AddType` / `AddRule` do before and after
+the first load / compile, which table a compile sees. Tie: `vh c11-schema` (driver `sobj`). -/
+namespace Props.C11
+section schemaObj
+open SchemaObj
+variable {W : World}
+
+/-- in every history from every pool each stage (load / compile body / len of an object) runs at most once; no filled cell,
+text or option ever changes (`PoolLe`); and — for pools in which no compile cell is filled before the load cell, e.g. fresh
+ones — `Len` / `UsedUserTypes` / `Check` / `Build` / `GetAST` asked again after ANY further history answer what they
+answered the first time -/
+theorem C11_schema_stage_once (p : Pool W) (h : List (Op W)) :
+    (∀ e : Ev, (run p h).2.1.count e ≤ 1) ∧ PoolLe p (run p h).1 ∧
+    (WF p → ∀ (h2 : List (Op W)) (q : Op W) (i : Nat) (o : Obj W), cellRecv q = some i → p[i]? = some o →
+      answer p (h ++ q :: h2) q = answer p h q) :=
+  ⟨stage_at_most_once p h, cells_stable p h, fun hw h2 q i o hr ho => repeat_same p hw h h2 q i o hr ho⟩
+
+/-- load-stage methods, history-free: on a pool of fresh objects `Len` after ANY history answers the len stage of the
+object's own text; `UsedUserTypes` answers the load stage of the object's own text, options and a rule list `rs` = the
+rules the object holds (those accepted by `AddRule` before its load; `[]` if it holds none) — unless that load failed
+before `inner` was set, when later `AddRule`s are still accepted without effect. (`GetAST` is NOT a load-stage method as
+coded: it runs `compile()`, see `C11_schema_result_fixed_at_first_compile`.) -/
+theorem C11_schema_result_function_of_inputs (specs : List (W.Text × Bool)) (h : List (Op W)) (i : Nat)
+    (s : W.Text × Bool) (hs : specs[i]? = some s) :
+    answer (mkPool specs) h (.len i) = outOfVal (W.len s.1) ∧
+    ∃ (o' : Obj W) (rs : List (String × W.Rule)),
+      answer (mkPool specs) h (.used i) = usedOut (W.load s.1 s.2 rs) ∧
+      ((∀ e, W.load s.1 s.2 rs ≠ .failEarly e) → rs = o'.rules) ∧ (o'.rules = [] → rs = []) ∧
+      (step (run (mkPool specs) h).1 (.used i)).1[i]? = some o' :=
+  ⟨len_history_free specs h i s hs, used_function_of_inputs specs h i s hs⟩
+
+/-- compile-stage methods: once ANY compiling method (`Check`, `Build`, `GetAST`, `Example`, `Validate`) ran on `i` after
+`h1`, `Check` / `Build` on `i` answer after every further history what they would have answered right after `h1` — and
+that value is `compileValue`: the compile stage on the view of the pool as it was then (every table as it was then, the
+receiver's one hoisted), or the cached load error -/
+theorem C11_schema_result_fixed_at_first_compile (p : Pool W) (h1 h2 : List (Op W)) (c q : Op W) (i : Nat) (o : Obj W)
+    (hc : compRecv c = some i) (hq : q = .check i ∨ q = .build i) (ho : p[i]? = some o) :
+    answer p (h1 ++ c :: h2) q = answer p h1 q ∧
+    (∀ o1 : Obj W, (run p h1).1[i]? = some o1 → o1.compC = none →
+      (ensureCompile (run p h1).1 i).2.2 = compileValue (run p h1).1 i) :=
+  ⟨compile_fixes p h1 h2 c q i o hc hq ho, fun o1 g1 hn => ensureCompile_value _ i o1 g1 hn⟩
+
+/-- which `AddType` calls are in the table of the first compile, as a closed form over the history and its answers
+(`tableAt`): as long as `i`'s compile body has not run, `i`'s table is its initial table followed by exactly the
+`AddType(name, j)` calls on receiver `i` that answered nil, in call order (refused ones — load error of either object,
+empty root, invalid or duplicate name — are not in it). The compile then sees this table hoisted over the tables of
+the `j`s as they are at that moment (`compileValue`). -/
+theorem C11_schema_table_at_first_compile (p : Pool W) (h : List (Op W)) (i : Nat)
+    (hc : (run p h).2.1.count (.compile i) = 0) :
+    typesOf (run p h).1 i = typesOf p i ++ tableAt i h (run p h).2.2 := table_closed_form p h i hc
+
+/-- the clean order-freedom statement (same set-up calls per receiver in the same relative order, all before the
+receiver's first compiling call; same query; any interleaving) — FALSE for the code as it is -/
+def C11_schema_order_free_full : Prop := ∀ W : World, OrderFree W
+
+/-- refuted: root.AddType(@t, T); T.AddType(@u, U); root.Check()  vs  root.AddType(@t, T); root.Check(); T.AddType(@u, U) —
+the root's compile hoists the tables of its types as they are at that moment (replayed on the real library) -/
+theorem C11_schema_order_free_refuted : ¬ C11_schema_order_free_full := fun h => not_orderFree (h W2)
+
+/-- what holds instead: `Len` does not depend on the history at all, and the compile verdict does not depend on anything
+that comes after the receiver's first compiling call -/
+theorem C11_schema_order_free_partial (specs : List (W.Text × Bool)) (h1 h2 h3 : List (Op W)) (c q : Op W) (i : Nat)
+    (s : W.Text × Bool) (hs : specs[i]? = some s) (hc : compRecv c = some i) (hq : q = .check i ∨ q = .build i) :
+    answer (mkPool specs) h1 (.len i) = answer (mkPool specs) h2 (.len i) ∧
+    answer (mkPool specs) (h1 ++ c :: h2) q = answer (mkPool specs) (h1 ++ c :: h3) q := by
+  refine ⟨by rw [len_history_free specs h1 i s hs, len_history_free specs h2 i s hs], ?_⟩
+  rw [compile_fixes _ h1 h2 c q i _ hc hq (mkPool_get specs i s hs),
+    compile_fixes _ h1 h3 c q i _ hc hq (mkPool_get specs i s hs)]
+
+/-! Non-vacuity: four objects — roots 0 and 1, the type 2 shared by both roots, the type 3 added to the type 2 -/
+def specs4 : List (W2.Text × Bool) := [((), false), ((), false), ((), false), ((), false)]
+def hist4 : List (Op W2) :=
+  [.addType 2 "@u" 3, .addType 0 "@t" 2, .addType 1 "@t" 2, .check 0, .getAST 1, .addType 2 "@v" 3, .check 0,
+   .addType 0 "@u" 3, .addType 0 "@w" 3, .used 2, .len 3, .len 3]
+
+/-- every stage once: the loads of 2, 3 (first `AddType`), 0, 1, the two compile bodies, one len; the late `AddType` on
+the shared type is accepted and changes nothing for the compiled roots; `@u` was hoisted into root 0 (duplicate), `@w` is
+accepted after the compile -/
+example : (run (mkPool specs4) hist4).2.1 = [.load 2, .load 3, .load 0, .load 1, .compile 0, .compile 1, .len 3] ∧
+    (run (mkPool specs4) hist4).2.2 =
+      [.ok, .ok, .ok, .ok, .val 1, .ok, .ok, .dup "@u", .ok, .val 2, .val 0, .val 0] := ⟨by rfl, by rfl⟩
+
+example : answer (mkPool specs4) (hist4 ++ [.check 0]) (.check 0) = answer (mkPool specs4) (hist4.take 3) (.check 0) :=
+  by rfl
+
+/-- the table of root 0 before its compile: the one accepted `AddType`; after the compile it also holds the hoisted `@u` -/
+example : (run (mkPool specs4) (hist4.take 3)).2.1.count (.compile 0) = 0 ∧
+    tableAt 0 (hist4.take 3) (run (mkPool specs4) (hist4.take 3)).2.2 = [("@t", 2)] ∧
+    typesOf (run (mkPool specs4) (hist4.take 4)).1 0 = [("@t", 2), ("@u", 3)] := ⟨by rfl, by rfl, by rfl⟩
+
+example : WF (mkPool specs4) := mkPool_wf specs4
+example : specs4[2]? = some ((), false) := rfl
+/-- the two histories of the refutation meet the hypotheses of the clean statement and answer differently -/
+example : setupFirst hA [] = true ∧ setupFirst hB [] = true ∧
+    answer (mkPool specs3) hA (.check 0) = .ok ∧ answer (mkPool specs3) hB (.check 0) = .err 1 :=
+  ⟨by rfl, by rfl, hA_answer, hB_answer⟩
+
+end schemaObj
+end Props.C11
